@@ -46,8 +46,33 @@ def configs(quick):
     return [("2col", (2, 3, 3, K3)), ("2col-k4", (2, 3, 3, K4)), ("1col-rich", (1, 4, 3, K7)), ("3col", (3, 2, 3, K3B))]
 
 
+def inexact_twins_before(text):
+    """history: earlier in the same process, beats of EQUAL VALUE to this text's row beats are built from inexact
+    inputs (a float, a Decimal, a decimal string - which snap to the 1/48 grid); an exact row beat read afterwards
+    is still exact"""
+    from fractions import Fraction
+    from decimal import Decimal
+    from simfile.timing import Beat
+    first = text.replace("&", ",").split(",")[:3]
+    for m, measure in enumerate(first):
+        rows = [r for r in measure.splitlines() if r.strip()]
+        for r in (1, len(rows) - 1, len(rows) // 2):
+            if 0 < r < len(rows):
+                b = Fraction(4 * (m * len(rows) + r), len(rows))
+                try:
+                    Beat(float(b))
+                    d = Decimal(b.numerator) / Decimal(b.denominator)
+                    Beat(d)
+                    Beat(str(d))
+                    Beat(float(b)) + Beat(0)
+                except Exception:  # noqa
+                    pass
+
+
 def decode_real(text):
     from simfile.notes import NoteData
+    if nc.text_mode(text) % 3 == 1:
+        inexact_twins_before(text)
     nd = NoteData(text)
     notes, consistent = nc.read_notes(nd, nc.text_mode(text))
     if not consistent:
